@@ -8,7 +8,7 @@ from .. import physics as P
 from .. import stages as S
 from . import core, solcore
 
-FACTORS = [Fr(-1), Fr("0.5"), Fr(3), Fr("-2.5"), Fr(10) ** 6, Fr(10) ** -6, Fr(10) ** -13, Fr(10) ** 3]
+FACTORS = [Fr(10) ** -13, Fr(-1), Fr(10) ** -16, Fr("0.5"), Fr(3), Fr("-2.5"), Fr(10) ** 6, Fr(10) ** -6, Fr(10) ** 3]
 BASE_ERR = Fr("1e-6")
 
 
@@ -42,7 +42,10 @@ def gen(rng, tier):
         s = G.gen_solvable(rng)
         if len(s.loads) < 2:
             s.loads += G.gen_loads_for_bar(rng, s.bars[0]["id"], nmax=3, allow_mz_dist=False) or []
-        ks = rng.sample(FACTORS, 2)
+        # every factor is used by some group of every run (the tiny ones push whole load sets under the
+        # absolute 1e-10 thresholds of the code), the second factor is drawn
+        ks = [FACTORS[g % len(FACTORS)]]
+        ks.append(rng.choice([k for k in FACTORS if k != ks[0]]))
         half = [rng.random() < 0.5 for _ in s.loads]
         if g % 2 == 0:
             # two concentrated loads closer than the slicing tolerance (1e-3) but distinct, one in each half
@@ -154,7 +157,7 @@ SPEC = {
     "corpus_filter": lambda c: False,
     "stages": [("F", lambda c, o, rng: solcore.stageF(c, o, rng) if c.get("role") in ("base", "scaled") else None, P.stageF_v, 2, 40)],
     "nontrivial": lambda c, o: M.solved(o) and c.get("role") in ("scaled", "part1"),
-    "rule": "groups of six runs of one solvable structure (as C01): the load set, the same with every load multiplied by two factors from {-1, 0.5, 3, -2.5, 1e6, 1e-6, 1e-13, 1e3} "
+    "rule": "groups of six runs of one solvable structure (as C01): the load set, the same with every load multiplied by two factors from {1e-13, -1, 1e-16, 0.5, 3, -2.5, 1e6, 1e-6, 1e3} (each factor used by some group of every run) "
             "(requested error scaled with the factor), two complementary halves of the load set (every other group holds two concentrated loads 2e-4 .. 9.9e-4 apart, one in each half), and no loads. Oracle: every displacement, local displacement, diagram value (both sides of every "
             "common position) and reaction of the scaled run equals factor x the base run; base run = sum of the two halves; the unloaded run is identically zero; tolerances from the requested "
             "errors and the conditioning of each system (C01_error_bound) and the stiffness of the shortest slice. non-trivial iff a scaled or partial run solved.",
